@@ -62,8 +62,14 @@ func c12BlankGpt(lss int) {
 	c12AssertNoFS(d, 1)
 }
 
-func VP_C12_blank_gpt_partition_512()  { c12BlankGpt(512) }
-func VP_C12_blank_gpt_partition_4096() { c12BlankGpt(4096) }
+func VP_C12_blank_gpt_partition_512() { c12BlankGpt(512) }
+func VP_C12_blank_gpt_partition_4096() {
+	if vp.Thorough() {
+		c12BlankGpt(4096)
+	} else {
+		vp.Cover("thorough tier only")
+	}
+}
 
 // ---------------------------------------------------------------------------------------
 // C12.magics (squashfs): a range that starts with a squashfs superblock (magic, version 4.0,
@@ -182,9 +188,16 @@ func VP_C12_scenario_fat12_small() {
 func VP_C12_scenario_fat12_floppy_gptpart() {
 	c12Scenario(filesystem.TypeFat12, 512, 1474560, 1<<20, "FLOPPY", true)
 }
+func VP_C12_scenario_fat32_4k_whole() {
+	c12Scenario(filesystem.TypeFat32, 4096, 256*1024, 0, "VOL4K", false)
+}
 func VP_C12_scenario_fat32_small() {
 	c12Scenario(filesystem.TypeFat32, 512, 128*1024, 0, "VOL32", false)
 }
 func VP_C12_scenario_fat32_4k_gptpart() {
-	c12Scenario(filesystem.TypeFat32, 4096, 256*1024, 64*1024, "", true)
+	if vp.Thorough() { // needs more than the quick tier's step budget
+		c12Scenario(filesystem.TypeFat32, 4096, 256*1024, 1<<20, "", true)
+	} else {
+		vp.Cover("thorough tier only")
+	}
 }
